@@ -651,6 +651,70 @@ def run(prog, rep, tier):
             rep.examined(R48, "%s|%s" % (rid_, k_), sample={"rule": rid_, "instance": k_})
     rep.floor("R4.8", 2)
 
+    # ------------------------------------------------------------ R4.9 the zone text filled in for zone-less timestamps denotes the fallback offset
+    # A timestamp without (or with an ambiguous) zone is completed with SyslineReader.tz_offset_string
+    # before chrono parses it.  That text must be a rendering of the same FixedOffset as the reader's
+    # tz_offset: chrono's own Display, or a hand-written +HH:MM that takes sign and magnitude apart
+    # before dividing (signmag).  Also applied to every other body that reads a FixedOffset's signed seconds.
+    import signmag as _sm
+    import mir as _mir
+    R49 = rep.rule("R4.9", "the fallback-zone text is rendered from the same offset, sign and magnitude taken apart before dividing")
+    # positive control: the detector fires on a minimal hand-built body (seconds.div_euclid(60) on local_minus_utc())
+    _ctl = _mir.Body({"path": "control::floor_split", "kind": "fn", "span": "control:1:1", "argc": 1,
+                      "locals": [{"ty": "i32"}, {"ty": "&chrono::FixedOffset", "name": "off"}, {"ty": "i32", "name": "seconds"}, {"ty": "i32"}],
+                      "blocks": [{"s": [], "t": ["call", {"o": "chrono::FixedOffset::local_minus_utc", "ga": [], "d": "chrono::FixedOffset::local_minus_utc", "f": "chrono::FixedOffset::local_minus_utc", "self": "chrono::FixedOffset", "aty": [], "line": 1}, [["cp", [1]]], [2], 1], "l": 1},
+                                 {"s": [], "t": ["call", {"o": "core::num::<impl i32>::div_euclid", "ga": [], "d": "core::num::<impl i32>::div_euclid", "f": "core::num::<impl i32>::div_euclid", "self": "i32", "aty": [], "line": 2}, [["cp", [2]], ["k", "i32", 60]], [0], 2], "l": 2},
+                                 {"s": [], "t": ["ret"], "l": 3}]})
+    if not _sm.splits_of_signed(_ctl):
+        raise CheckerError("R4.9: positive control of the sign/magnitude detector did not fire")
+    nb_ = prog.body("s4lib::readers::syslinereader::SyslineReader::new")
+    found49 = 0
+    for bb in sorted(nb_.live):
+        for st in nb_.stmts(bb):
+            if st[0] == "=" and st[2][0] == "agg" and isinstance(st[2][1], dict) and st[2][1].get("adt", "").endswith("SyslineReader") and "tz_offset_string" in st[2][1].get("fields", []):
+                flds = st[2][1]["fields"]
+                o_s = nb_.origins(st[2][2][flds.index("tz_offset_string")])
+                o_o = nb_.origins(st[2][2][flds.index("tz_offset")], through_calls=("Clone>::clone", "::clone"))
+                found49 += 1
+                verdict = []
+                for x in o_s:
+                    if x[0] != "call":
+                        verdict.append(("not-a-call", str(x[:2])))
+                        continue
+                    cc_ = [z for z in nb_.calls if z.bb == x[1]][0]
+                    src_ = set()
+                    for a in cc_.args:
+                        src_ |= {y[:2] for y in nb_.origins(a, through_calls=("Clone>::clone", "::clone", "::deref"))}
+                    same = bool(src_) and src_ == {y[:2] for y in o_o}
+                    nm_ = (cc_.o or cc_.d)
+                    if not same:
+                        verdict.append(("other-offset", nm_))
+                    elif nm_.endswith("ToString::to_string") and cc_.callee.get("self") == "chrono::FixedOffset":
+                        verdict.append(("chrono-display", nm_))
+                    elif cc_.d in prog.facts.bodies:
+                        sp_ = _sm.splits_of_signed(prog.body(cc_.d))
+                        verdict.append(("hand-written-bad" if sp_ else "hand-written", nm_, sp_))
+                    else:
+                        verdict.append(("unrecognised", nm_))
+                rep.examined(R49, nb_.path + "|tz_offset_string", sample={"rendered_by": [list(v[:2]) for v in verdict]})
+                for v in verdict:
+                    if v[0] == "other-offset":
+                        rep.violation(R49, nb_.path + "|tz_offset_string|source", "SyslineReader::new: tz_offset_string is rendered (%s) from a value other than the tz_offset stored beside it; zone-less timestamps would be completed with a different zone than the one used for naive datetimes" % v[1])
+                    if v[0] == "hand-written-bad":
+                        rep.violation(R49, nb_.path + "|tz_offset_string|sign-magnitude", "%s (line %d) applies %s to the signed second count of the offset: a negative offset with a minute part is rendered wrong "
+                                      "(-03:30 as -04:30), so timestamps completed with the fallback zone text are attributed an instant one hour off" % (v[1].split("::")[-1], v[2][0][0], v[2][0][1]))
+    if found49 != 1:
+        raise CheckerError("R4.9: %d constructions of SyslineReader with tz_offset_string in SyslineReader::new" % found49)
+    for ob_ in prog.bodies():
+        if not (ob_.path.startswith("s4lib::") or ob_.path.startswith("s4::")) or "_tests" in ob_.path:
+            continue
+        sp_ = _sm.splits_of_signed(ob_)
+        if sp_ is None:
+            continue
+        rep.examined(R49, ob_.path + "|signed-seconds", sample={"fn": ob_.path, "splits_of_raw_signed_count": sp_})
+        if sp_:
+            rep.violation(R49, ob_.path + "|signed-seconds", "%s (line %d) applies %s to a FixedOffset's signed second count without taking the magnitude first: negative offsets with a minute part come out wrong (-03:30 as -04:30 or -03:-30)" % (ob_.path.split("::")[-1], sp_[0][0], sp_[0][1]))
+
     return rep.finish(
         "Static check, for all strings of the regular language of each of the table's rows: the byte pre-check chosen for the row (helper byte "
         "classes read from the helpers' MIR, selection read from ezcheck_slice and DTFSSet::has_year4/has_d2) never rejects a string the regex "
